@@ -55,7 +55,7 @@ CLAIMED = {
             "Trusts the simulator's virtual clock (time.monotonic patched) and the reference model; float-vs-exact grey zone of 1e-9 around the threshold."),
     "C15": ("fault_enumeration", "4/C15",
             "deterministic simulation with fault enumeration: stall injected after every plaintext byte offset (4 request shapes x 3 transport modes) and every ciphertext byte offset of the handshake flights (2 TLS backends) under virtual time, plus seeded timer-vs-data races",
-            "Every stall point of the enumerated space is executed (18802 cases), then seeded runs race the request timer against late data at T-e/T/T+e, slow handlers and middleware up to 5xT, dribbling peers and disconnects; the close deadline, the single 40 response and the absence of a timeout after a complete request are checked.",
+            "Every stall point of the enumerated space is executed (31402 cases: 18802 stall points plus the 12600 Titan stall points again behind a middleware chain), then seeded runs race the request timer against late data at T-e/T/T+e, slow handlers and middleware up to 5xT, dribbling peers and disconnects; the close deadline, the single 40 response and the absence of a timeout after a complete request are checked.",
             "T_handshake = 60 s demanded of both backends; virtual clock; e = 50 ms slack."),
 }
 
